@@ -1,6 +1,6 @@
 (* Props/C06.v -- property C06: interrupt requests are accepted, refused, dispatched and retired per Z80 rules.
    C06_tie: the generated Step IS spec_step; the clauses are theorems about spec_step / try_interrupt. *)
-From Z80V Require Import Proofs.SpecFacts Proofs.Frame Proofs.Iter.
+From Z80V Require Import Proofs.SpecFacts Proofs.Frame Proofs.Deferred Proofs.Iter.
 
 Theorem C06_tie : forall cpu, WF cpu -> Step cpu = spec_step impl_unspec cpu.
 Proof. exact Step_ok. Qed.
@@ -87,3 +87,26 @@ Print Assumptions C06_no_request_appears.
 Theorem C06_generated_steps : forall n cpu, WF cpu -> iter n cpu = spec_iter impl_unspec n cpu /\ WF (iter n cpu).
 Proof. intros n cpu H. split; [apply iter_ok, H | apply iter_WF, H]. Qed.
 Print Assumptions C06_generated_steps.
+
+(* ---- a maskable request arriving while interrupts are disabled (IFF1 = 0, mode 1), the program about to execute EI, for the
+   generated Step: Step 1 refuses it, leaves it pending and runs EI (nothing pushed); Step 2 accepts it: the address pushed is that
+   of the first instruction not yet executed (the one after EI), control goes to 0038h, both flip-flops cleared, request consumed,
+   no program instruction runs in that Step (R advanced only by EI's fetch) ---- *)
+Theorem C06_deferred_request_served_after_ei : forall cpu dat, WF cpu -> g_Memory cpu = UserMem ->
+  g_Interrupt cpu = Some (mk_Interrupt 1 dat) -> g_IFF1 cpu = false -> g_IM cpu = 1 ->
+  u8 (ram (g_W cpu) (g_PC cpu)) = 251 ->
+  let next := u16 (g_PC cpu + 1) in
+  let sp2 := u16 (g_SP cpu - 2) in let sp1 := u16 (sp2 + 1) in
+  let cpu1 := iter 1 cpu in let cpu2 := iter 2 cpu in
+  (g_Interrupt cpu1 = Some (mk_Interrupt 1 dat) /\ g_IFF1 cpu1 = true /\ g_IFF2 cpu1 = true /\ g_PC cpu1 = next /\
+   g_SP cpu1 = g_SP cpu /\ ram (g_W cpu1) = ram (g_W cpu)) /\
+  (g_Interrupt cpu2 = None /\ g_IFF1 cpu2 = false /\ g_IFF2 cpu2 = false /\ g_PC cpu2 = 56 /\ g_SP cpu2 = sp2 /\
+   g_GPR cpu2 = g_GPR cpu /\ g_Alternate cpu2 = g_Alternate cpu /\ g_IX cpu2 = g_IX cpu /\ g_IY cpu2 = g_IY cpu /\
+   g_IM cpu2 = g_IM cpu /\ g_IR_Hi cpu2 = g_IR_Hi cpu /\ g_IR_Lo cpu2 = r_tick (g_IR_Lo cpu) /\
+   ram (g_W cpu2) = upd (upd (ram (g_W cpu)) sp2 (lo next)) sp1 (hi next)).
+Proof. exact deferred_im1_gen. Qed.
+Print Assumptions C06_deferred_request_served_after_ei.
+Example C06_deferred_premises_hold :
+  WF deferred_demo /\ g_Memory deferred_demo = UserMem /\ g_Interrupt deferred_demo = Some (mk_Interrupt 1 []) /\
+  g_IFF1 deferred_demo = false /\ g_IM deferred_demo = 1 /\ u8 (ram (g_W deferred_demo) (g_PC deferred_demo)) = 251.
+Proof. exact deferred_demo_premises. Qed.
